@@ -196,7 +196,7 @@ func c14Pool() {
 	x.gates[0], x.gates[1] = make(chan struct{}), make(chan struct{})
 	mode := simrt.Draw(3) // 0: every caller passes N  1: arbitrary  2: decreasing
 	n0 := simrt.DrawRange(1, 4)
-	nCallers := simrt.DrawRange(1, 6)
+	nCallers := simrt.DrawRange(1, 6+3*(simrt.Scale()-1))
 	holdProb := simrt.Draw(3) // 0: nothing held
 	budget := 12
 	tasks := make([][]*wkCall, nCallers)
